@@ -86,6 +86,7 @@ type gateAgent struct {
 	pauseStart   atomic.Bool
 	startPaused  chan struct{}
 	startRelease chan struct{}
+	afterStart   func(id [stun.TransactionIDSize]byte) // called after the agent accepted a Start (set before the client is used)
 }
 
 func (g *gateAgent) Start(id [stun.TransactionIDSize]byte, deadline time.Time) error {
@@ -96,7 +97,11 @@ func (g *gateAgent) Start(id [stun.TransactionIDSize]byte, deadline time.Time) e
 		case <-time.After(8 * time.Second):
 		}
 	}
-	return g.Agent.Start(id, deadline)
+	err := g.Agent.Start(id, deadline)
+	if f := g.afterStart; f != nil && err == nil {
+		f(id)
+	}
+	return err
 }
 
 func (g *gateAgent) SetHandler(h stun.Handler) error {
@@ -2127,6 +2132,62 @@ func moreClientScenarios(o *out, r *rng) {
 		}
 		_ = e.c.Close()
 		o.count("response-during-the-first-write")
+	}
+	// (4h) the response is processed the moment the agent has accepted the RE-registration of a retransmitted
+	// transaction (a delegating agent does it at the end of that Start): it reaches the transaction's handler
+	for i := 0; i < 8; i++ {
+		id := 8300 + i
+		tid := clientTID(id)
+		e := &env{clock: &vclock{now: agentBase}, coll: &manualCollector{}, invoked: map[int][]int{}}
+		e.conn = &raceConn{rd: make(chan []byte), closedCh: make(chan struct{}), writes: map[[12]byte]int{},
+			held: make(chan struct{}, 1), release: make(chan struct{}), idle: make(chan struct{}, 1)}
+		e.gate = &gateAgent{Agent: stun.NewAgent(nil), inflight: make(chan struct{}, 1), release: make(chan struct{}), startPaused: make(chan struct{}, 1)}
+		starts := 0
+		resp := response(r, id, 0)
+		want := 2 + i%3 // the response comes with the 2nd, 3rd or 4th registration
+		e.gate.afterStart = func(got [stun.TransactionIDSize]byte) {
+			if got != tid {
+				return
+			}
+			starts++
+			if starts == want {
+				pm := new(stun.Message)
+				if stun.Decode(resp, pm) == nil {
+					_ = e.gate.Agent.Process(pm)
+				}
+			}
+		}
+		fallback := 0
+		c, err := stun.NewClient(e.conn, stun.WithClock(e.clock), stun.WithCollector(e.coll), stun.WithRTO(100), stun.WithAgent(e.gate),
+			stun.WithHandler(func(stun.Event) { fallback++ }))
+		if err != nil {
+			continue
+		}
+		e.c = c
+		idle(e)
+		var evs []error
+		raw := stunMsg(r, 1, 20)
+		copy(raw[8:20], tid[:])
+		_ = c.Start(&stun.Message{TransactionID: tid, Raw: raw}, func(ev stun.Event) {
+			e.mu.Lock()
+			evs = append(evs, ev.Error)
+			e.mu.Unlock()
+		})
+		now := agentBase
+		for k := 1; k <= 5; k++ {
+			now = now.Add(time.Duration(100*k + 1))
+			e.clock.set(now)
+			e.coll.f(now)
+		}
+		_ = c.Close()
+		e.mu.Lock()
+		if len(evs) != 1 || evs[0] != nil || fallback != 0 {
+			d := fmt.Sprintf("x response-at-the-re-registration #%d (processed when the agent accepted registration %d of the transaction): handler events %v, fallback handler called %d times", i, want, evs, fallback)
+			o.failFor("C10", "handler-not-invoked-exactly-once", d)
+			o.failFor("C12", "response-missed-its-transaction", d)
+		}
+		e.mu.Unlock()
+		o.count("response-at-the-re-registration")
 	}
 	// (4e) the response is read and processed while Start's own Write is still in progress, and that Write then
 	// SUCCEEDS (a synchronous in-process transport): the response reaches the transaction's handler, not the
